@@ -18,6 +18,25 @@ def __getattr__(name):
 '''
 
 
+def function_spans(cfile):
+    """[(first line, last line, C function name)] of the generated C file"""
+    spans = []
+    cur = None
+    try:
+        for no, line in enumerate(open(cfile, errors='replace'), 1):
+            if line.startswith('static ') and line.rstrip().endswith('{'):
+                m = re.search(r'\b(__pyx_\w+|__Pyx_\w+)\(', line)
+                if m:
+                    cur = [no, no, m.group(1)]
+            elif line.startswith('}') and cur:
+                cur[1] = no
+                spans.append(tuple(cur))
+                cur = None
+    except OSError:
+        pass
+    return spans
+
+
 def c02_sample(ck, n):
     from props import C02
     funcs = C02.gen_functions(ck)
@@ -54,13 +73,13 @@ def main(ck):
             hcases.extend(cs)
     workloads.append(('c36host', hostile.PYX, '.pyx', hcases, None, True))
     for i in range(ck.pick(2, 20)):
-        src, funcs = pygen.gen_module(rng, ck.pick(30, 40))
+        src, funcs = pygen.gen_module(rng, ck.pick(25, 40))
         cases = []
         for f in funcs:
             for a in pygen.gen_args(rng, f['param_kinds'], ck.pick(8, 14)):
                 cases.append({'f': f['name'], 'a': a, 't': 'pygen'})
         workloads.append(('c36py%d' % i, src, '.py', cases, 'same', False))
-    src, cases = c02_sample(ck, ck.pick(250, 1500))
+    src, cases = c02_sample(ck, ck.pick(70, 1500))
     workloads.append(('c36arith', src, '.py', cases, 'same', False))
 
     by_ext = {}
@@ -106,7 +125,12 @@ def main(ck):
             t = k.split('|')[0]
             hist[t] = hist.get(t, 0) + v
         reps = san.parse_logs(logdir)
+        spans = None
         for r in reps:
+            if r['func'] == '?' and r.get('line'):
+                if spans is None:
+                    spans = function_spans(inf['c'])
+                r['func'] = next((fn for lo, hi, fn in spans if lo <= r['line'] <= hi), '?')
             key = san.dedupe_key(r)
             if user_arith and r['tool'] == 'ubsan' and not san.is_helper(r['func']) and 'overflow' in r['kind']:
                 # C arithmetic written by the program itself (FA rule): counted, not reported
@@ -131,7 +155,7 @@ def main(ck):
             ck.inconclusive_if(True, 'driver failed for %s: %s' % (name, str(ft)[-400:]))
     ck.inconclusive_if(failed > 0, '%d workload module(s) failed to build' % failed)
     # the sanitizer runtime must really have been active: libasan preloaded and instrumented code reached
-    ck.inconclusive_if(total < ck.pick(5000, 50000), 'fewer sanitised calls than the floor')
+    ck.inconclusive_if(total < ck.pick(4000, 50000), 'fewer sanitised calls than the floor')
     return ck.finish(
         total, distinct,
         'hostile typed .pyx templates (extreme indices/slices on typed and untyped sequences, shifts, C division incl. MIN//-1, '
